@@ -18,6 +18,7 @@ type Config struct {
 	Engine string // "", "f32", "f64"
 	Entry  string // "" (default per op), "func", "method"
 	Name   string // configuration label (build tags etc.)
+	Calc   bool   // also ask the shape-only calculators and compare them with the operations (C13)
 }
 
 type World struct {
